@@ -225,7 +225,15 @@ func (vc *VC) planUpdates() {
 				}
 				if as, ok := wantA[full]; ok {
 					vc.assertsAt[ins] = append(vc.assertsAt[ins], as...)
+					used["assert "+full] = true
 				}
+			}
+		}
+	}
+	for site, as := range wantA {
+		if !used["assert "+site] {
+			for _, a := range as {
+				vc.missing = append(vc.missing, missingClause{Name: "post:" + a.C.Label + "@" + strings.ReplaceAll(a.Site, " ", "_"), Props: a.C.Props, Why: fmt.Sprintf("the program point %q named by assert [%s] no longer exists", a.Site, a.C.Label), C: a.C})
 			}
 		}
 	}
